@@ -21,8 +21,8 @@ import (
 
 type monC01 struct{ st *Stats }
 
-func NewC01() Monitor          { return &monC01{st: NewStats()} }
-func (m *monC01) Prop() string { return "C01" }
+func NewC01() Monitor           { return &monC01{st: NewStats()} }
+func (m *monC01) Prop() string  { return "C01" }
 func (m *monC01) Stats() *Stats { return m.st }
 
 // excess returns balance - expected for the three escrows of every auction id < NextAuctionID
@@ -162,8 +162,8 @@ func opsStr(ops []Op) []string {
 
 type monC02 struct{ st *Stats }
 
-func NewC02() Monitor          { return &monC02{st: NewStats()} }
-func (m *monC02) Prop() string { return "C02" }
+func NewC02() Monitor           { return &monC02{st: NewStats()} }
+func (m *monC02) Prop() string  { return "C02" }
 func (m *monC02) Stats() *Stats { return m.st }
 
 func coinsEq(a, b ref.Coins) bool {
@@ -495,4 +495,3 @@ func (m *monC02) blockExpect(t *Transition, exp *expect, trs []Transfer) []Viola
 	}
 	return vs
 }
-
